@@ -424,8 +424,13 @@ def pyIntBody : List Char → Option Int
   | '+' :: cs => (digitsGo false 0 cs).map fun n => (n : Int)
   | cs => (digitsGo false 0 cs).map fun n => (n : Int)
 
+/-- CPython's guard against quadratic conversions: more than `sys.get_int_max_str_digits()` digit characters
+    (underscores and the sign do not count) is a ValueError. -/
+def tooManyDigits (s : List Char) : Bool :=
+  intMaxStrDigits != 0 && decide (intMaxStrDigits < (s.filter isDigit).length)
+
 /-- Python `int(str)` in base 10 (ASCII digits). -/
-def pyInt (s : List Char) : Option Int := pyIntBody (strip s)
+def pyInt (s : List Char) : Option Int := if tooManyDigits (strip s) then none else pyIntBody (strip s)
 
 inductive Index where
   | int (i : Int)
